@@ -195,7 +195,9 @@ def gcm_nonce(b: Blob) -> bytes:
 
 
 def ref_kek(rk: gkdi.RootKey, sd: bytes, kid: gkdi.KeyId, chain: t.Optional[gkdi.Chain] = None) -> bytes:
-    ch = chain or gkdi.Chain(rk.hash_name, rk.key, rk.rkid, sd, kid.l0)
+    if not (0 <= kid.l1 <= 31 and 0 <= kid.l2 <= 31):
+        raise CmsError("key position out of range")
+    ch = chain or gkdi.chain_cached(rk.hash_name, rk.key, rk.rkid, sd, kid.l0)
     l2 = ch.l2(kid.l1, kid.l2)
     if kid.flags & 1:
         return gkdi.kek_public(rk.hash_name, l2, rk.secret_alg, rk.priv_len, kid.key_info)
@@ -231,7 +233,7 @@ def ref_encrypt(
     """A blob exactly as a conforming implementation would emit it for key position pos."""
     l0, l1, l2 = pos
     sd = dtyp.target_sd(dtyp.parse_sid_string(sid))
-    ch = gkdi.Chain(rk.hash_name, rk.key, rk.rkid, sd, l0)
+    ch = gkdi.chain_cached(rk.hash_name, rk.key, rk.rkid, sd, l0)
     l2k = ch.l2(l1, l2)
     if ephemeral is None:
         assert key_nonce is not None
